@@ -70,7 +70,7 @@ impl<'a> From<&'a ChildParentData> for ChildRenderContext<'a> {
 }
 
 struct FieldContainer<'a> {
-    gr_idx: usize,
+    gr_idx: Vec<usize>,
     path: String,
     field_data: FieldData<'a>
 }
@@ -267,15 +267,29 @@ fn struct_init_block<'a>(input: &'a Struct, ctx: &'a ImplContext) -> TokenStream
 
     let mut group_paths = HashMap::<String, usize>::new();
     group_paths.insert("".into(), 0);
+    let mut next_idx: usize = 1;
 
-    let mut make_tuple = |path: String, field_data: FieldData<'a>| {
-        if group_paths.contains_key(&path) {
-            let gr_idx = *group_paths.get(&path).unwrap();
-            (FieldContainer { gr_idx, path, field_data }, false)
-        } else {
-            group_paths.insert(path.clone(), group_paths.len());
-            (FieldContainer { gr_idx: group_paths.len() - 1, path, field_data}, true)
+    // Sort key of a member: the index of every nested struct enclosing it (one per path prefix, in first-seen
+    // order) followed by its own index, so that all members of a nested struct end up next to each other
+    // wherever they were declared in the flat struct.
+    let mut make_tuple = |path: String, nested: bool, leaf: bool, field_data: FieldData<'a>| {
+        let is_new = !group_paths.contains_key(&path);
+        let mut gr_idx = vec![];
+        if nested {
+            let mut prefix = String::new();
+            for segment in path.split('.') {
+                if !prefix.is_empty() {
+                    prefix.push('.');
+                }
+                prefix.push_str(segment);
+                gr_idx.push(*group_paths.entry(prefix.clone()).or_insert_with(|| { next_idx += 1; next_idx - 1 }));
+            }
         }
+        if leaf {
+            gr_idx.push(next_idx);
+            next_idx += 1;
+        }
+        (FieldContainer { gr_idx, path, field_data }, is_new)
     };
 
     let mut fields: Vec<FieldContainer> = vec![];
@@ -283,10 +297,12 @@ fn struct_init_block<'a>(input: &'a Struct, ctx: &'a ImplContext) -> TokenStream
     fields.extend(input.fields.iter()
         .flat_map(|x| {
             let fields: Vec<FieldContainer> = if let Some(p) = x.attrs.parameterized_parent_attr(&ctx.struct_attr.ty).map(|a| a.child_fields.as_ref().unwrap()) {
-                p.iter().map(|p| make_tuple(format!("{}{}", &x.member_str, &p.sub_path_tokens.to_string().replace(' ', "")), FieldData::ParentChildField(x, p)).0).collect()
+                p.iter().map(|p| make_tuple(format!("{}{}", &x.member_str, &p.sub_path_tokens.to_string().replace(' ', "")), true, true, FieldData::ParentChildField(x, p)).0).collect()
             } else {
-                let path = x.attrs.child(&ctx.struct_attr.ty).map(|x| x.get_child_path_str(None)).unwrap_or(&x.member_str);
-                vec![make_tuple(path.to_string(), FieldData::Field(x)).0]
+                match x.attrs.child(&ctx.struct_attr.ty) {
+                    Some(child_attr) => vec![make_tuple(child_attr.get_child_path_str(None).to_string(), true, true, FieldData::Field(x)).0],
+                    None => vec![make_tuple(x.member_str.clone(), false, true, FieldData::Field(x)).0],
+                }
             };
             fields.into_iter()
         }));
@@ -294,7 +310,8 @@ fn struct_init_block<'a>(input: &'a Struct, ctx: &'a ImplContext) -> TokenStream
     fields.extend(input.attrs.ghosts_attr(&ctx.struct_attr.ty, &ctx.kind).into_iter()
         .flat_map(|x| &x.ghost_data)
         .filter_map(|x| {
-            let res = make_tuple(x.get_child_path_str(None).into(), FieldData::GhostData(x));
+            let path = x.get_child_path_str(None);
+            let res = make_tuple(path.into(), !path.is_empty(), false, FieldData::GhostData(x));
             res.1.then_some(res.0)
         }));
 
